@@ -464,6 +464,10 @@ def main(tier: str) -> int:
     chunk = max(1, len(lists) // 32 + 1)
     for i in range(0, len(lists), chunk):
         tasks.append({"kind": "tok_concrete", "chunk": i // chunk, "lists": lists[i:i + chunk]})
+    # (d) long inputs (concrete)
+    nlong, shifts = (500, 12) if tier == "quick" else (4500, 40)
+    for sh in range(shifts):
+        tasks.append({"kind": "long_concrete", "n": nlong, "shift": sh})
     results = runner.pmap(_dispatch, tasks)
     from collections import Counter
     c = Counter()
@@ -518,7 +522,9 @@ def main(tier: str) -> int:
                    "token_level": f"all token lists of length <= {ntok} over '(' ')' atom (one-character tokens, symbolic)",
                    "token_level_concrete": f"every well-formed token list of <= {9 if tier == 'quick' else 10} tokens over the atoms "
                                            f"a, b, ab: {len(lists)} lists run concretely against the reference tree",
-                   "outside": "non-ASCII text, longer inputs, encoding errors of open(); composition tokenizer o reader "
+                   "long_inputs_concrete": f"{shifts} texts of {len(long_text(nlong, 0))}+ characters ({nlong} lines, 0..{shifts - 1} leading "
+                                           f"blanks), file and string constructor, run concretely against the reference reader",
+                   "outside": "non-ASCII text, encoding errors of open(); symbolic claims end at the stated lengths; composition tokenizer o reader "
                               "beyond the end-to-end bound is argued, not mechanised"},
         "functions_executed_symbolically": ["PDDLTokenizer.__init__ (pddl_str and file_path)", "PDDLTokenizer._is_comment_line",
                                             "PDDLTokenizer.tokenize", "PDDLTokenizer.read_from_tokens", "PDDLTokenizer.parse"],
@@ -587,7 +593,39 @@ def run_concrete_trees(task):
     return res
 
 
+def long_text(n, shift):
+    """a long, ordinary-looking text: n lines of '(link node-0001 n3) ; note 1 (x', each line a list followed by a comment
+    that contains a parenthesis, preceded by `shift` blanks so that every alignment of a size boundary (a read block, a
+    buffer) with a token, a parenthesis, a comment and a line break occurs for some shift"""
+    body = "".join(f"(link node-{i:04d} n{i % 7}) ; note {i} (x\n" if i % 3 else f"(Link node-{i:04d}\t(n{i % 7} n{i % 5}))\n" for i in range(n))
+    return " " * shift + "(define (domain long)\n" + body + ")\n"
+
+
+def run_long_concrete(task):
+    """(d) inputs far longer than the symbolic bound, run concretely through both constructors against the reference reader:
+    the symbolic tasks cover every string up to a handful of characters, but not mechanisms that depend on the SIZE of the
+    input (block-wise reading, buffers)"""
+    res = {"task": dict(task), "outcome": "held", "paths": 0, "obligations": 0, "cex": None}
+    t = long_text(task["n"], task["shift"])
+    for fm in (True, False):
+        res["paths"] += 1
+        res["obligations"] += 1
+        bad, a, b = disagree_concrete(t, fm, "parse")
+        if bad:
+            fa, fb = str(a[1]), str(b[1])
+            i = next((k for k in range(min(len(fa), len(fb))) if fa[k] != fb[k]), 0)
+            res["outcome"] = "violation"
+            res["cex"] = {"what": f"a text of {len(t)} characters is read differently from its parenthesis structure "
+                                  f"({'file' if fm else 'string'} constructor)", "text": f"long_text({task['n']}, {task['shift']})",
+                          "long": {"n": task["n"], "shift": task["shift"]}, "file_mode": fm, "kind": "parse",
+                          "library": fa[max(0, i - 60): i + 60], "reference": fb[max(0, i - 60): i + 60]}
+            break
+    return res
+
+
 def _dispatch(task):
+    if task["kind"] == "long_concrete":
+        return run_long_concrete(task)
     if task["kind"] == "tok":
         return run_token_task(task)
     if task["kind"] == "tok_concrete":
@@ -656,6 +694,9 @@ def replay(payload, path):
         r = run_concrete_trees({"chunk": 0, "lists": [cx["tokens"]]})
         print(r["outcome"], r.get("cex"))
         bad = r["outcome"] == "violation"
+    elif cx.get("long"):
+        bad, a, b = disagree_concrete(long_text(cx["long"]["n"], cx["long"]["shift"]), cx["file_mode"], cx["kind"])
+        a, b = (a[0], str(a[1])[:300]), (b[0], str(b[1])[:300])
     else:
         bad, a, b = disagree_concrete(cx["text"], cx["file_mode"], cx["kind"])
         print(repr(cx["text"]), "library", a, "reference", b)
